@@ -27,11 +27,25 @@
         segment, its EXTINF is the media time that segment spans on the leading track and its
         EXT-X-PROGRAM-DATE-TIME, where printed, the wall clock of that segment's first unit (from the
         agreement of all streams on ids, gap flags, start / end times and wall clocks, MuxAgree.v).
-   Checked by the correspondence run + oracle, not proved: the same two facts for the MPEG-TS variant. *)
+   ... and for the MPEG-TS variant (hypotheses c_variant c = MPEGTS and all_ok m0 ops only).  The segment writer
+   keeps only the 90 kHz timestamps of a unit, so the written values are kept in a ghost log beside the state:
+   ts_wlog m0 ops (Proofs/MuxSpanTSHist.v) lists the accepted writes (track, unit) grouped like the segments - a
+   write that makes the number of segments grow opens a group, one that only makes the unit log grow joins the
+   last group, any other write is dropped - and wunit / wtime are the unit handed to the segment writer and
+   timestampToDuration of the written decode time (video: a_dts, audio: a_pts) at the track's clock rate:
+     c03_mpegts_segment_times_are_first_units  group by group the ghost log maps onto the units the segments hold;
+        every evicted or listed segment g has a first write x and the next (listed or open) segment a first write
+        y, with sg_start g = wtime x, sg_ntp g = the wall clock of x, sg_end g = wtime y;
+     c03_mpegts_extinf_is_media_span  EXTINF of the i-th listed entry = wtime y - wtime x, its id that of the
+        segment and its EXT-X-PROGRAM-DATE-TIME (always printed in this variant) the wall clock of x;
+     c03_mpegts_date_time_is_first_unit_ntp  the date-time clause on its own;
+     c03_mpegts_span_nonvacuous  an H264 + AAC history with two complete segments.
+   Nothing of the property's EXTINF / PROGRAM-DATE-TIME clauses is left to the tie alone. *)
 From Coq Require Import List ZArith Bool.
 From GoHls Require Import Model.Mux Proofs.MuxStream Proofs.MuxLift Proofs.MuxWindow Proofs.MuxHistory
   Proofs.MuxPlaylist Proofs.MuxTimes Proofs.MuxTargetMono
-  Proofs.MuxLog Proofs.MuxLogStep Proofs.MuxGroups Proofs.MuxChain Proofs.MuxSpan Proofs.MuxSpanHist Proofs.MuxSpanAll.
+  Proofs.MuxLog Proofs.MuxLogStep Proofs.MuxGroups Proofs.MuxChain Proofs.MuxSpan Proofs.MuxSpanHist Proofs.MuxSpanAll
+  Proofs.MuxLogTS Proofs.MuxTSStart Proofs.MuxSpanTS Proofs.MuxSpanTSHist.
 Import ListNotations.
 Local Open Scope Z_scope.
 
@@ -189,3 +203,68 @@ Theorem c03_span_nonvacuous : exists m0 t pl e1 e2,
         = (10000000000, 11000000000, 12000000000).
 Proof. exact span_example. Qed.
 Print Assumptions c03_span_nonvacuous.
+
+(* ---- the same for the MPEG-TS variant, over the ghost log of written units ---- *)
+Theorem c03_mpegts_segment_times_are_first_units : forall c m0 ops,
+  start c = Ok m0 -> c_variant c = MPEGTS -> all_ok m0 ops ->
+  let m := mux_run m0 ops in
+  let W := ts_wlog m0 ops in
+  map (map (wunit m)) W = tsg m
+  /\ forall s P g Q,
+       nth_error (m_streams m) 0 = Some s -> published s = P ++ g :: Q ->
+       exists x rest y rest',
+         nth_error W (length P) = Some (x :: rest) /\ nth_error W (S (length P)) = Some (y :: rest')
+         /\ sg_units g = map (wunit m) (x :: rest)
+         /\ sg_start g = wtime m x
+         /\ sg_ntp g = a_ntp (snd x)
+         /\ sg_end g = wtime m y.
+Proof. exact ts_segment_times_are_first_units. Qed.
+Print Assumptions c03_mpegts_segment_times_are_first_units.
+
+Theorem c03_mpegts_extinf_is_media_span : forall c m0 ops,
+  start c = Ok m0 -> c_variant c = MPEGTS -> all_ok m0 ops ->
+  let m := mux_run m0 ops in
+  let W := ts_wlog m0 ops in
+  forall pl i e,
+    gen_media_playlist m 0 = Some pl -> nth_error (pl_segs pl) i = Some e ->
+    exists s g x rest y rest',
+      nth_error (m_streams m) 0 = Some s /\ nth_error (st_segments s) i = Some g
+      /\ nth_error W (length (st_evicted s) + i) = Some (x :: rest)
+      /\ nth_error W (S (length (st_evicted s) + i)) = Some (y :: rest')
+      /\ sg_units g = map (wunit m) (x :: rest)
+      /\ ps_dur e = wtime m y - wtime m x
+      /\ (sg_gap g = false -> ps_id e = sg_id g /\ ps_dt e = Some (a_ntp (snd x))).
+Proof. exact ts_extinf_is_media_span. Qed.
+Print Assumptions c03_mpegts_extinf_is_media_span.
+
+Theorem c03_mpegts_date_time_is_first_unit_ntp : forall c m0 ops,
+  start c = Ok m0 -> c_variant c = MPEGTS -> all_ok m0 ops ->
+  let m := mux_run m0 ops in
+  let W := ts_wlog m0 ops in
+  forall pl i e,
+    gen_media_playlist m 0 = Some pl -> nth_error (pl_segs pl) i = Some e -> ps_gap e = false ->
+    exists s g x rest,
+      nth_error (m_streams m) 0 = Some s /\ nth_error (st_segments s) i = Some g /\ ps_id e = sg_id g
+      /\ nth_error W (length (st_evicted s) + i) = Some (x :: rest)
+      /\ sg_units g = map (wunit m) (x :: rest)
+      /\ ps_dt e = Some (a_ntp (snd x)).
+Proof. exact ts_date_time_is_first_unit_ntp. Qed.
+Print Assumptions c03_mpegts_date_time_is_first_unit_ntp.
+
+Theorem c03_mpegts_span_nonvacuous : exists m0 pl e1 e2,
+  start ts_cfg = Ok m0 /\ c_variant ts_cfg = MPEGTS /\ all_ok m0 ts_ops2
+  /\ let m := mux_run m0 ts_ops2 in
+     gen_media_playlist m 0 = Some pl
+     /\ nth_error (pl_segs pl) 0 = Some e1 /\ nth_error (pl_segs pl) 1 = Some e2
+     /\ (ps_gap e1, ps_id e1, ps_dur e1, ps_dt e1) = (false, 0, 1000000000, Some (1700000000000000000 + 45000 * 11111))
+     /\ (ps_gap e2, ps_id e2, ps_dur e2, ps_dt e2) = (false, 1, 1000000000, Some (1700000000000000000 + 135000 * 11111))
+     /\ map (map (fun x => (fst x, a_dts (snd x), a_ntp (snd x)))) (ts_wlog m0 ts_ops2)
+        = [[(0%nat, 45000, 1700000000000000000 + 45000 * 11111); (1%nat, 24000, 1700000000000000000 + 24000 * 11111);
+            (0%nat, 90000, 1700000000000000000 + 90000 * 11111)];
+           [(0%nat, 135000, 1700000000000000000 + 135000 * 11111); (1%nat, 48000, 1700000000000000000 + 48000 * 11111);
+            (0%nat, 180000, 1700000000000000000 + 180000 * 11111)];
+           [(0%nat, 225000, 1700000000000000000 + 225000 * 11111); (1%nat, 72000, 1700000000000000000 + 72000 * 11111)]]
+     /\ map (fun w => match w with x :: _ => wtime m x | [] => 0 end) (ts_wlog m0 ts_ops2)
+        = [500000000; 1500000000; 2500000000].
+Proof. exact ts_span_example. Qed.
+Print Assumptions c03_mpegts_span_nonvacuous.
